@@ -31,5 +31,7 @@ class C01(CacheProp):
                             st["n"], k, c, v, sk, sc))
         return fails
 
+    stress_kinds = ("wrongkey",)
+
 
 PROP = C01()
